@@ -116,7 +116,14 @@ def _b_cons_bytes(n, bs):
     return bytes([n]) + bs
 
 
+I64_MIN, I64_MAX = -(1 << 63), (1 << 63) - 1
+
+
 def _b_slice(start, ln, bs):
+    # the builtin's integer arguments are machine integers: a value that does not fit 64 bits is an
+    # evaluation failure (pinned by the upstream conformance goldens), not a clamped slice
+    if not (I64_MIN <= start <= I64_MAX and I64_MIN <= ln <= I64_MAX):
+        raise Abort()
     s = max(start, 0)
     n = max(ln, 0)
     return bs[s:s + n]
@@ -272,7 +279,7 @@ class Interp(object):
             if v.state == 1:
                 raise Abort()  # cyclic (cannot happen)
             v.state = 1
-            x = self.ev(v.e, v.env)
+            x = v.e() if callable(v.e) else self.ev(v.e, v.env)
             if v.conv is not None:
                 x = v.conv(x)
             v.val = x
@@ -414,6 +421,22 @@ class Interp(object):
                 conv = lambda x: M.to_data(x, rt, self.adts)  # noqa: E731
             env2 = dict(env)
             env2[e.pat.name] = Thunk(e.rhs, env, conv)
+            return self.ev(e.body, env2)
+        if self.lazy:
+            # destructuring let, by need: every bound variable forces the right-hand side when first used
+            whole = Thunk(e.rhs, env)
+            env2 = dict(env)
+            from pats import pattern_vars
+
+            def proj(name):
+                def go():
+                    tmp = {}
+                    self.match(e.pat, self.force(whole), tmp)
+                    return self.force(tmp[name]) if type(tmp[name]) is Thunk else tmp[name]
+                return go
+
+            for name, _t in pattern_vars(e.pat):
+                env2[name] = Thunk(proj(name), None)
             return self.ev(e.body, env2)
         v = self.ev(e.rhs, env)
         if up:
